@@ -127,6 +127,8 @@ let parse_event (f : string list) : ev =
 type block = { mutable evl : string list; mutable picks : (string * string) list; mutable outs : string list;
                mutable pit : string; mutable pitn : string; mutable cs : string; mutable dnl : string }
 
+let strat_of_name (s : fw) (n : name) : n = strat_of s.strat n
+
 let () =
   let prop = if Array.length Sys.argv > 1 then Sys.argv.(1) else "ALL" in
   let want p = prop = "ALL" || prop = p in
@@ -283,6 +285,30 @@ let () =
                sp := pend_tick !sp now
            | _ ->
                if outs_impl <> [] then Printf.printf "ORACLE C01 %s %d spontaneous | an event that is not a packet arrival emitted packets: [%s]\n" caseid !evno (String.concat "; " outs_impl))
+        end;
+        if want "C02" then begin
+          (match e with
+           | EInterest (now, i) ->
+               let fail sg what = Printf.printf "ORACLE C02 %s %d %s | Interest %s from face %s (nonce %s, hop %s, nexthopfaceid %s): %s; sent [%s]\n" caseid !evno sg
+                   (string_of_name i.i_name) (dec_of_n i.i_face) (match i.i_nonce with Some x -> dec_of_n x | None -> "-")
+                   (match i.i_hop with Some x -> dec_of_n x | None -> "-") (match i.i_nhf with Some x -> dec_of_n x | None -> "-")
+                   what (String.concat "; " outs_impl) in
+               let via = if i.i_nhf <> None then "nexthopfaceid" else if N.eqb (strat_of_name pre i.i_name) (n_of_int 1) then "multicast" else "best-route" in
+               if not (c02_outs_ok pre i outs_impl_parsed) then
+                 fail ("bad-nexthop:" ^ via) "forwarded to a face that is not a next hop of the longest-prefix FIB entry (or the chosen next hop), back to its point-to-point arrival face, or with a wrong name/hop limit";
+               if not (c02_drop_ok pre i outs_impl_parsed) then
+                 fail "not-dropped" "must be dropped (hop limit 0, no nonce, dead nonce, duplicate nonce from another face, scope) but packets were sent";
+               if not (c02_suppress_ok pre now i outs_impl_parsed) then
+                 fail ("not-suppressed:" ^ via) "a different-nonce retransmission inside the suppression interval was forwarded";
+               if not (c02_strategy_ok pre i outs_impl_parsed) then
+                 fail ("strategy:" ^ via) "best-route did not pick one lowest-cost usable next hop / multicast did not use exactly the usable next hops";
+               if not (c02_forward_ok pre now i outs_impl_parsed) then
+                 fail ("not-forwarded:" ^ via) "not dropped, not cached, not suppressed and a usable next hop exists, but no Interest was sent";
+               if not (c02_nodup_ok outs_impl_parsed) then
+                 fail ("duplicate:" ^ via) "a face got more than one copy"
+           | _ ->
+               if List.exists (fun o -> o.o_kind = KInterest) outs_impl_parsed then
+                 Printf.printf "ORACLE C02 %s %d spontaneous | an Interest was sent although no Interest arrived: [%s]\n" caseid !evno (String.concat "; " outs_impl))
         end;
         if outs_impl <> [] || b.pit <> "pit" then changed := true;
         prev_obs := (b.pit, b.cs, b.dnl)
